@@ -2,6 +2,7 @@
 //   drv_rsession describe <scenarios>            -> one JSON line per scenario (constants of spec/ReadSession.tla)
 //   drv_rsession replay   <scenarios> <paths>    -> M1 edge replay (RESULT line)
 //   drv_rsession random   <scenarios> <seed> <runs> <tracefile>  -> M2: seeded random schedules, ndjson trace
+#include <sys/wait.h>
 #include <unistd.h>
 
 #include "blfkit.h"
@@ -11,17 +12,30 @@
 using namespace Vector::BLF;
 using kit::MemFile;
 
+// 256 MiB allocation cap standing in for a memory-limited host (C10): an absurd declared size is a
+// std::bad_alloc inside the library, not gigabytes of zero-filling
+static bool g_cap = true;
+void * operator new(size_t n) {
+    if (g_cap && n > (256u << 20)) throw std::bad_alloc();
+    void * p = malloc(n ? n : 1);
+    if (!p) throw std::bad_alloc();
+    return p;
+}
+void operator delete(void * p) noexcept { free(p); }
+void operator delete(void * p, size_t) noexcept { free(p); }
+
 struct Item {
-    std::string kind;      // can | apptext | unk | raw | t115
+    std::string kind;      // can | apptext | unk | raw | t115 | serial | marker | canfd | env
     long a = 0, b = 0;
     std::string hex;
 };
 struct Scenario {
     std::string name;
-    long B = 0x20000, Q = 10, post = 0, nreads = -1, method = 0, level = 0, cut = -1, chop = 0, hdr0 = 0;
+    long B = 0x20000, Q = 10, post = 0, nreads = -1, method = 0, level = 0, cut = -1, chop = 0, hdr0 = 0, badcont = -1;
     bool emptyFile = false;       // no complete container at all
     std::vector<long> pends;      // file offset behind the stored payload of each container
     std::string tail = "eof";
+    std::string ref;              // path of an existing (reference) file to use instead of building one
     std::vector<Item> items;
     std::vector<long> conts;
     // derived
@@ -52,7 +66,9 @@ static std::vector<Scenario> load_scenarios(const char * fn) {
                 else if (k == "CUT") s.cut = atol(x.c_str());
                 else if (k == "CHOP") s.chop = atol(x.c_str());
                 else if (k == "HDR0") s.hdr0 = atol(x.c_str());
+                else if (k == "BADCONT") s.badcont = atol(x.c_str());
                 else if (k == "TAIL") s.tail = x;
+                else if (k == "REF") s.ref = x;
             }
         } else if (w[0] == "ITEM") {
             Item it;
@@ -77,8 +93,8 @@ static void set_id(ObjectHeaderBase * o, uint64_t id) {
 // identity of a delivered object = its time stamp; 0 is reserved for nullptr in the spec
 static long get_id(ObjectHeaderBase * o) {
     long id = 999;
-    if (auto * h = dynamic_cast<ObjectHeader *>(o)) id = (long) h->objectTimeStamp;
-    else if (auto * h2 = dynamic_cast<ObjectHeader2 *>(o)) id = (long) h2->objectTimeStamp;
+    if (auto * h = dynamic_cast<ObjectHeader *>(o)) id = (long) (h->objectTimeStamp & 0x3fffffff);
+    else if (auto * h2 = dynamic_cast<ObjectHeader2 *>(o)) id = (long) (h2->objectTimeStamp & 0x3fffffff);
     return id == 0 ? 777 : id;
 }
 
@@ -99,6 +115,33 @@ static void build(Scenario & s, const std::string & dir, bool writeFile) {
         } else if (it.kind == "t115") {
             RestorePointContainer m;
             set_id(&m, it.a);
+            b = kit::encode(m);
+        } else if (it.kind == "serial") {
+            SerialEvent m;
+            set_id(&m, it.a);
+            m.general.data.assign((size_t) it.b, 0x33);
+            m.general.timeStamps.assign(2, 0x0102030405060708ll);
+            b = kit::encode(m);
+        } else if (it.kind == "marker") {
+            GlobalMarker m;
+            set_id(&m, it.a);
+            m.groupName = "group"; m.markerName = "marker"; m.description.assign((size_t) it.b, 'd');
+            b = kit::encode(m);
+        } else if (it.kind == "canfd") {
+            CanFdMessage64 m;
+            set_id(&m, it.a);
+            m.data.assign((size_t) it.b, 0x44);
+            b = kit::encode(m);
+        } else if (it.kind == "env") {
+            EnvironmentVariable m;
+            m.objectType = ObjectType::ENV_DATA;
+            set_id(&m, it.a);
+            m.name = "env"; m.data.assign((size_t) it.b, 0x55);
+            b = kit::encode(m);
+        } else if (it.kind == "eth") {
+            EthernetFrame m;
+            set_id(&m, it.a);
+            m.payLoad.assign((size_t) it.b, 0x66);
             b = kit::encode(m);
         } else if (it.kind == "unk") {
             b = kit::raw_object((uint32_t) it.a, (uint32_t) it.b, (uint32_t) it.b);
@@ -133,12 +176,22 @@ static void build(Scenario & s, const std::string & dir, bool writeFile) {
     s.pends.clear();
     for (long u : conts) {
         std::vector<uint8_t> c = kit::container_bytes(s.stream.data() + off, (size_t) u, (int) s.method, (int) s.level);
+        if ((long) s.pends.size() == s.badcont && c.size() > 40) {       // damage the deflate stream: uncompress() throws
+            for (size_t q = 34; q < c.size() && q < 44; q++) c[q] ^= 0xff;
+        }
         s.pends.push_back((long) f.size() + (long) kit::rd32(c, 8));      // header + stored payload = objectSize
         f.insert(f.end(), c.begin(), c.end());
         off += (size_t) u;
     }
     if (s.hdr0)                    // the statistics header as open() writes it first: counters still zero
         for (size_t i = 16; i < 144 && i < f.size(); i++) f[i] = 0;
+    if (!s.ref.empty()) f = kit::read_file(s.ref);
+    if (s.tail == "foreign") {
+        // a container whose objectSize (16) is below its own header: compressedFileSize wraps to ~4 GiB,
+        // resize() throws std::bad_alloc under the allocation cap (a non-library exception in the worker)
+        std::vector<uint8_t> j = kit::raw_object(10, 16, 32, 0);
+        f.insert(f.end(), j.begin(), j.end());
+    }
     if (s.tail == "junk") {
         std::vector<uint8_t> j = kit::raw_object(1, 48, 48);     // a non-container object at container level
         f.insert(f.end(), j.begin(), j.end());
@@ -168,8 +221,15 @@ static std::string describe(Scenario & s) {
     std::vector<long> conts = s.conts;
     if (conts.empty()) conts.push_back((long) s.stream.size());
     if (s.emptyFile) conts.clear();
-    o.raw("conts", jarr(conts.begin(), conts.end(), [](long u) {
-        JObj c; c.put("usize", u).putb("ok", true); return c.str(); }));
+    {
+        std::vector<std::string> cj;
+        for (size_t i = 0; i < conts.size(); i++) {
+            JObj c;
+            c.put("usize", conts[i]).putb("ok", (long) i != s.badcont);
+            cj.push_back(c.str());
+        }
+        o.raw("conts", jarr(cj.begin(), cj.end(), [](const std::string & x) { return x; }));
+    }
     o.raw("cls", jarr(s.stream.begin(), s.stream.end(), [](uint8_t b) { return jstr(kit::byte_class(b)); }));
     o.raw("pends", jarr(s.pends.begin(), s.pends.end(), [](long v) { return jint(v); }));
     o.put("fsize", (long) s.filebytes.size());
@@ -461,6 +521,98 @@ int main(int argc, char ** argv) {
         vsched::reset();
         JObj o;
         o.puts("driver", "rsession_trunc").put("paths", total);
+        printf("RESULT %s\n", o.str().c_str());
+        return 0;
+    }
+    if (mode == "hostile") {
+        // drv_rsession hostile <scenarios> <seed> <casefile>: each line of casefile: <scenario> <kind> <a> <b>
+        //   sub off val | w16 off val | w32 off val | cut n 0 | dup off len | del off len | none 0 0
+        unsigned long seed = strtoul(argv[3], nullptr, 10);
+        std::ifstream cf(argv[4]);
+        std::string scn, kind;
+        long a, b;
+        long total = 0, bad = 0;
+        while (cf >> scn >> kind >> a >> b) {
+            Scenario * base = byname[scn];
+            if (!base) continue;
+            std::vector<uint8_t> f = base->filebytes;
+            if (kind == "sub" && a < (long) f.size()) f[(size_t) a] = (uint8_t) b;
+            else if (kind == "w16" && a + 2 <= (long) f.size()) kit::wr16(f, (size_t) a, (uint16_t) b);
+            else if (kind == "w32" && a + 4 <= (long) f.size()) kit::wr32(f, (size_t) a, (uint32_t) b);
+            else if (kind == "cut" && a <= (long) f.size()) f.resize((size_t) a);
+            else if (kind == "dup" && a + b <= (long) f.size()) f.insert(f.begin() + a, f.begin() + a, f.begin() + a + b);
+            else if (kind == "del" && a + b <= (long) f.size()) f.erase(f.begin() + a, f.begin() + a + b);
+            total++;
+            fflush(stdout);
+            pid_t pid = fork();
+            if (pid == 0) {
+                alarm(120);
+                Scenario sc = *base;
+                sc.nreads = -1;
+                sc.filename = dir + "/h_" + std::to_string((long) getpid()) + ".blf";
+                kit::write_file(sc.filename, f);
+                std::mt19937_64 rng(seed + (unsigned long) total);
+                vsched::reset();
+                Session S;
+                S.file = new File;
+                vsched::set_untracked(&S.file->m_compressedFile.m_mutex);
+                Session * sp = &S;
+                const Scenario * scp = &sc;
+                bool threw = false, foreign = false, closed = false;
+                vsched::spawn([&, sp, scp] {
+                    File & fl = *sp->file;
+                    try {
+                        fl.open(scp->filename.c_str(), std::ios_base::in);
+                    } catch (Vector::BLF::Exception &) {
+                        threw = true;
+                    } catch (...) {
+                        foreign = true;
+                    }
+                    if (!threw && !foreign) {
+                        for (long n = 0; n < 100000; n++) {
+                            ObjectHeaderBase * o = fl.read();
+                            if (!o) break;
+                            sp->delivered.push_back(get_id(o));
+                            delete o;
+                        }
+                    }
+                    fl.close();
+                    closed = true;
+                });
+                long budget = 3000000;
+                std::string verdict;
+                for (;;) {
+                    std::vector<int> run;
+                    for (int t = 0; t < vsched::nthreads(); t++)
+                        if (vsched::runnable(t)) run.push_back(t);
+                    if (run.empty()) { verdict = vsched::all_finished() ? "ok" : "deadlock"; break; }
+                    int t = run[rng() % run.size()];
+                    long burst = 1 + (long) (rng() % 64);
+                    for (long bb = 0; bb < burst && vsched::runnable(t); bb++) { vsched::step(t); if (--budget <= 0) break; }
+                    if (budget <= 0) { verdict = "livelock"; break; }
+                }
+                unlink(sc.filename.c_str());
+                bool ok = verdict == "ok" && closed && !foreign && S.delivered.size() < 100000;
+                if (!ok) {
+                    JObj o;
+                    o.puts("scen", scn).puts("kind", kind).put("a", a).put("b", b).puts("verdict", verdict).putb("closed", closed)
+                        .putb("foreign", foreign).put("objects", (long) S.delivered.size());
+                    printf("HOST %s\n", o.str().c_str());
+                    fflush(stdout);
+                }
+                _exit(ok ? 0 : 3);
+            }
+            int status = 0;
+            waitpid(pid, &status, 0);
+            if (!(WIFEXITED(status) && (WEXITSTATUS(status) == 0 || WEXITSTATUS(status) == 3))) {
+                JObj o;
+                o.puts("scen", scn).puts("kind", kind).put("a", a).put("b", b).puts("verdict", "crash").put("status", (long) status);
+                printf("HOST %s\n", o.str().c_str());
+            }
+            if (!(WIFEXITED(status) && WEXITSTATUS(status) == 0)) bad++;
+        }
+        JObj o;
+        o.puts("driver", "rsession_hostile").put("paths", total).put("mismatches", bad);
         printf("RESULT %s\n", o.str().c_str());
         return 0;
     }
